@@ -408,3 +408,19 @@ Definition may_products_relaxed2 (x : input) (h : list variant) : list seq :=
     flat_map (fun secs => relaxed2_products_ctx x false (upstream_rl hs st) (fst (translate_from hs st secs)))
              (may_secs x h))
     (may_starts x h hs).
+
+(* ------------------------------------------------------------------ signature: Sec voided by a neighbouring record *)
+(* the engine reads an annotated Sec codon as a stop when a record of the haplotype lies within one codon
+   of it (its codon-aligned variant node reaches the Sec codon) although the codon itself is untouched *)
+Definition sec_touched_wide (h : list variant) (p : Z) : bool := touched h (p - 3) (p + 6).
+
+Definition may_secs_wide (x : input) (h : list variant) : list (list Z) :=
+  let free := filter (fun p => negb (sec_touched_wide h p)) (in_sec x) in
+  let hit := filter (sec_touched_wide h) (in_sec x) in
+  map (fun s => map (shift h) (free ++ s)) (sublists hit).
+
+Definition may_products_secwide (x : input) (h : list variant) : list seq :=
+  let hs := apply_hap (in_tx x) h in
+  flat_map (fun st =>
+    flat_map (fun secs => products x false true (translate_from hs st secs)) (may_secs_wide x h))
+    (may_starts x h hs).
